@@ -31,6 +31,7 @@ EDGES = [
     "JoiningEdge",  # its __init__ calls back into the library (add_to_universe)
     "BondEdge",  # value equality: a--b == b--a
     "LabelledEdge",  # class-level default overridden per instance through attributes=
+    "NestingEdge",  # its __init__ calls randgraph itself (re-entrant use of the builder)
 ]
 
 
